@@ -15,7 +15,7 @@ CLAIMED = {
   "Cloner.Clone returns an independent copy; user blocks touch only c.state/c.globalStore; sync.Pool hands back only maps that were Put (modelled as fresh-and-empty, justified by the Put precondition 'cleared' and linear use)"),
  "C06": ("proof", "§7 C06",
   "Memo invariant: every entry (node, offset) records a derivable result, a true savepoint and the failure shape; the hit paths of parseExprWrap/parseRuleMemoize/leader prove the same postconditions as the miss paths, entries are never dropped (at-most-once evaluation), left-recursive rules and expressions inside them are never memoized; Debug/Statistics helpers are proved to touch only depth and the statistics maps.",
-  "Debug: the trace depth is proved never negative (strings.Repeat cannot panic) and balanced by every parse function, also on panic paths; the generator side is linked: builder.writeRule is proved to emit the leftRecursive/leader fields from the analysed rule's own flags. Work bound follows by counting (meta); the cache key omits the label scope (defect F4, demonstrated by a witness, not expressible as a per-function obligation: see DESIGN §9)"),
+  "known finding F16 (a memo hit on a labeled expression does not bind the label: the postcondition 'a successful labeled expression leaves its label bound' of parseExprWrap fails on the hit path) is excused only inside the region p.memoize and while its witness reproduces. Debug: the trace depth is proved never negative (strings.Repeat cannot panic) and balanced by every parse function, also on panic paths; the generator side is linked: builder.writeRule is proved to emit the leftRecursive/leader fields from the analysed rule's own flags. Work bound follows by counting (meta); the cache key omits the label scope: known finding F4, tied to parseExprWrap:ensures[answer] (a code predicate answers for the labels in scope now, given that predicates are functions of their labels: the hit path fails it) with region p.memoize"),
  "C08": ("proof", "§7 C08",
   "parseRuleRecursiveLeader's seed-growing loop is verified with an inductive invariant (seed is a true savepoint, accepted attempts end strictly later, variant len(input)-end), with call-site obligations: each attempt starts at the start mark with the previous result seeded in the memo, a successful first attempt is always accepted, errors and state of the final non-extending attempt are not retained, the final result is memoized; parseRuleWrap's dispatch (leader / member / plain / memoized) is proved per variant.",
   "equivalence of seed growing with the iterative reading (b)(a)* is the Warth/Medeiros meta-theorem; generator side: writeRule is proved to emit leader/leftRecursive from the analysed rule, findLeader to pick the least candidate; that the candidate lies on every cycle is a BOUNDED stand-in (all graphs with <= 4 vertices), not a proof"),
@@ -24,7 +24,7 @@ CLAIMED = {
   "parse() (deferred recover: a panic becomes the final error iff Recover is on), newParser, setOptions, errList.err/dedupe are under contract as well; user code blocks are assumed to obey their declared call contracts"),
  "C12": ("proof", "§7 C12",
   "failAt is verified against the spec update of the failure record (farthest offset, reset/add/keep of the expected set, '!' prefix under inversion); each terminal matcher performs exactly one such event per evaluation at its start position with its own text; no other function writes the record; parseNotExpr inverts around the operand only and every function restores the inversion flag.",
-  "the final message is under contract too: in parse() the error is added only when no other error was recorded, at the farthest position, and its expected list is proved (loop invariants over the dedupe map and the arbitrary-order map range, sort.Strings modelled as a sorted permutation) to contain exactly the recorded terminals, sorted, without duplicates, with '!.' shown last as EOF. The farthest position is proved to be the position OF its offset (line and column included) except for known finding F8 (input starting with a newline, farthest failure at offset 0). That the record holds the GLOBAL maximum over the whole run is the induction over the run (meta)."),
+  "the final message is under contract too: in parse() the error is added only when no other error was recorded, at the farthest position, and its expected list is proved (loop invariants over the dedupe map and the arbitrary-order map range, sort.Strings modelled as a sorted permutation) to contain exactly the recorded terminals, sorted, without duplicates, with '!.' shown last as EOF. The farthest position is proved to be the position OF its offset (line and column included) except for known finding F8 (input starting with a newline, farthest failure at offset 0). That the record holds the GLOBAL maximum over the whole run is the induction over the run (meta), and it assumes that every derivation step is evaluated: with Memoize(true) a memo hit replays no failure events and the message can differ (defect F14, DESIGN 16.3, documented, no obligation); the claim is for Memoize(false)."),
  "C14": ("proof", "§7 C14",
   "pushRecovery installs exactly the listed labels bound to the recovery expression; parseRecoveryExpr keeps them in force exactly during the guarded call; parseThrowExpr is verified against the inductive judgement TH (innermost handler first, failed recovery expressions are skipped, no handler = failure without consumption); handler maps in force are never written by any parse function (RecStable).",
   "interaction with the state store is disclaimed by the documentation"),
@@ -42,7 +42,7 @@ CLAIMED = {
   "Tarjan SCC and cycle enumeration (scc.go, recursive closures over maps) are outside the verified subset: BOUNDED stand-in (labelled bounded, never counted as proved): StronglyConnectedComponents, FindCyclesInSCC and findLeader are run on every directed graph with <= 4 vertices (66066 graphs, several vertex orders, repeated calls) against a transitive-closure oracle by an in-package test injected with go test -overlay. PrepareGrammar is proved to analyse the rule table the generated parser builds (last definition of a name wins on both sides). 'no cycle in the First graph implies no same-offset re-entry at run time' is Ford's well-formedness theorem (meta). The First set of a throw is taken from the property (its handlers' First sets): ThrowExpr.InitialNames returns nothing, known finding F13. Defects F5a/F5b found by these obligations were repaired by fix: commits."),
  "C09": ("other", "§7 C09",
   "Local obligations of the grammar optimizer: cloneExpr returns a fresh node of the same kind for every expression kind (no node shared with the inlined rule), optimizeRule only inlines rules that refer to no other rule and never dereferences an undefined rule, the class/literal merge arms only build unions of non-inverted classes with equal case sensitivity and only concatenate literals of equal case sensitivity, cleanupCharClassMatcher keeps chars/ranges/classes as sets and keeps first occurrences in order.",
-  "cloneExpr's copy of a character class is proved to own fresh backing arrays (slice model with backing-array identity), Walk to visit every child of every kind (must-call). The in-place slice surgery of the optimize visitor is outside the value model of slices: language preservation of the whole rewriting and the label-scope interaction of inlining (defect F7c) are not decided; Walk assumes visitors keep the tree well-formed"),
+  "cloneExpr's copy of a character class is proved to own fresh backing arrays (slice model with backing-array identity) and to clone every child; Walk to walk every child when the visitor descends; optimize to offer every child of every kind to optimizeRule (this obligation failed for recovery expressions: defect F15, repaired by a fix: commit). The in-place slice surgery of the optimize visitor is outside the value model of slices: language preservation of the whole rewriting and the label-scope interaction of inlining (defect F7c) are not decided; Walk assumes visitors keep the tree well-formed"),
  "C13": ("other", "§7 C13",
   "Zero-annotation safety obligations (nil dereference, index, slice bounds, nil-map write, type assertion, explicit panic) are discharged for Walk, cloneExpr, optimizeRule(s), cleanupCharClassMatcher, every NullableVisit/IsNullable/InitialNames, MakeFirstGraph, ComputeNullables, ComputeLeftRecursives, findLeader, PrepareGrammar, rangeTable, BasicLatinLookup under the AST well-formedness the front-end establishes (which does NOT include 'referenced rules are defined'); buildParser rejects what the analysis rejects.",
   "also under contract: main()'s exit paths (every error path ends in exit(non-zero): argument, parse, build, format, write, close errors; all-calls obligations on exit), every builder function that writes the grammar literal and the code-block methods (writeGrammar/writeRule/writeExpr/write<Kind>/writeFunc/...: no panic on any tree the front-end builds), CharClassMatcher.parse's loops terminate (reader model of strings.Reader assumed), optimizeRule's bookkeeping (a rule's entry is dropped only when its set of referenced rules is empty: the leaf test the inlining relies on). Not under contract: the front-end's own parse (pigeon.go), termination of the optimizer fixpoint and of NullableVisit, writeStaticCode (text/template), the optimize visitor's slice surgery. Defects F9a/F9b/F12 found by these obligations were repaired by fix: commits."),
